@@ -217,7 +217,9 @@ func (ex *Exec) posStr(p token.Pos) string {
 	}
 	ps := ex.P.fset.Position(p)
 	f := ps.Filename
-	if i := strings.Index(f, "/repo/"); i >= 0 {
+	if strings.HasPrefix(f, repoDir+"/") {
+		f = f[len(repoDir)+1:] // labels do not depend on where the repository copy lives
+	} else if i := strings.Index(f, "/repo/"); i >= 0 {
 		f = f[i+6:]
 	} else if i := strings.LastIndex(f, "/src/"); i >= 0 {
 		f = f[i+5:]
